@@ -4,7 +4,7 @@ CONSTANTS
   ZO <- UZO
   LabelRank <- URank
   SpOrigins <- UOrigins
-  SpTTLs = {300, 5}
+  SpTTLs = {300, 5, 0}
   SpNoise <- UNoise
   SpGenerates <- UGenerates
   SpMaxExtra = 2
